@@ -287,6 +287,9 @@ func c10RunScenario(sc *c10Scenario) *c10Run {
 		cons[k] = sp.consumers[tp{topics[k.t], k.p}]
 	}
 	rng := rand.New(rand.NewSource(sc.Seed + 7))
+	for _, rec := range sc.Recs { // what the broker handed to the consumer: every one of these must enter the pipeline
+		r.log("Fetched", "id", rec.ID, "topic", rec.Topic, "part", int(rec.Part), "off", rec.Off, "epoch", int(rec.Epoch))
+	}
 	for _, k := range order {
 		recs := byKey[k]
 		for len(recs) > 0 { // split into fetches of random size
